@@ -99,17 +99,19 @@ func checkC03(c *Ctx, w *World) {
 	L := lcs.Atom
 	growCalls := pl.callsIn(lb, ns)
 	c.floor("C03.grow", len(growCalls), 1)
+	// exits, with merged single-exit returns split per incoming path
+	vrets := lcs.VirtualReturns()
 	for _, call := range growCalls {
 		imp, wit := lcs.Implies(lcs.Reach(call), lcs.And(lcs.Not(L("belowWatermark")), lcs.Or(L("unlimited"), L("belowMax"))))
 		c.check(imp && lcs.Seen("belowWatermark") && lcs.Seen("belowMax"), "C03.grow", "getLeastBusySubConnRef → newSubConn: guard", p.ipos(call),
 			"growth only when the least busy READY channel is at/above the watermark and the pool is below maxSize (or unlimited)", "pool can grow while a READY channel has capacity, or at/above maxSize: "+wit)
 		// C03.wait: every return after the growth request yields no slot and ErrNoSubConnAvailable
-		for i, r := range returnsOf(lb) {
-			if !mayPrecede(call, r) {
+		for i, vr := range vrets {
+			if !mayPrecede(call, vr.Ret) || !lcs.Satisfiable(and(vr.Cond, lcs.Reach(call))) {
 				continue
 			}
-			_, onlyNil, ok := slotOrigin(r.Results[0])
-			errOK := originsAll(r.Results[1], func(o Origin) bool {
+			_, onlyNil, ok := slotOrigin(vr.Vals[0])
+			errOK := originsAll(vr.Vals[1], func(o Origin) bool {
 				u, isU := o.Val.(*ssa.UnOp)
 				if !isU {
 					return false
@@ -117,21 +119,21 @@ func checkC03(c *Ctx, w *World) {
 				g, isG := u.X.(*ssa.Global)
 				return isG && g.Name() == "ErrNoSubConnAvailable"
 			})
-			c.check(ok && onlyNil && errOK, "C03.wait", fmt.Sprintf("getLeastBusySubConnRef return#%d after growth", i+1), p.ipos(r), "the pick that triggered growth is told to wait (no slot, ErrNoSubConnAvailable)", "a pick that triggers growth is also placed, or fails with another error")
+			c.check(ok && onlyNil && errOK, "C03.wait", fmt.Sprintf("getLeastBusySubConnRef return#%d after growth", i+1), p.ipos(vr.Ret), "the pick that triggered growth is told to wait (no slot, ErrNoSubConnAvailable)", "a pick that triggers growth is also placed, or fails with another error")
 		}
 	}
 	// at capacity: the minimum slot is returned (placed even above the watermark)
-	for i, r := range returnsOf(lb) {
-		if v, onlyNil, ok := slotOrigin(r.Results[0]); ok && !onlyNil && msCall != nil && isExtractOf(v, msCall, 0) {
-			imp, wit := lcs.Implies(lcs.Reach(r), lcs.Or(L("belowWatermark"), lcs.And(lcs.Not(L("unlimited")), lcs.Not(L("belowMax")))))
-			c.check(imp, "C03.grow", fmt.Sprintf("getLeastBusySubConnRef return#%d: placement", i+1), p.ipos(r), "a slot is handed out only below the watermark or when the pool is at maxSize", "a call is placed although the pool should grow first: "+wit)
+	for i, vr := range vrets {
+		if v, onlyNil, ok := slotOrigin(vr.Vals[0]); ok && !onlyNil && msCall != nil && isExtractOf(v, msCall, 0) {
+			imp, wit := lcs.Implies(vr.Cond, lcs.Or(L("belowWatermark"), lcs.And(lcs.Not(L("unlimited")), lcs.Not(L("belowMax")))))
+			c.check(imp, "C03.grow", fmt.Sprintf("getLeastBusySubConnRef return#%d: placement", i+1), p.ipos(vr.Ret), "a slot is handed out only below the watermark or when the pool is at maxSize", "a call is placed although the pool should grow first: "+wit)
 		}
 	}
 	// completeness: saturated ∧ at max ⇒ placed (not refused)
 	refused := lcs.False()
-	for _, r := range returnsOf(lb) {
-		if _, onlyNil, ok := slotOrigin(r.Results[0]); ok && onlyNil {
-			refused = or(refused, lcs.Reach(r))
+	for _, vr := range vrets {
+		if _, onlyNil, ok := slotOrigin(vr.Vals[0]); ok && onlyNil {
+			refused = or(refused, vr.Cond)
 		}
 	}
 	imp, wit := lcs.Implies(and(refused, lcs.And(lcs.Not(L("noSlot")), lcs.Not(L("unlimited")), lcs.Not(L("belowMax")))), lcs.False())
